@@ -372,6 +372,8 @@ FASTOR_INLINE bool isequal(
         const double Tol=PRECI_TOL) {
     if ( DIMS0 != DIMS1) return false;
     if ( _src0.self().size() != _src1.self().size()) return false;
+    // for integral element types the tolerance is converted to the element type (0) and |a-b| < 0 never holds
+    if (std::is_integral<typename Derived0::scalar_type>::value && Tol <= 1) return all_of(_src0.self() == _src1.self());
     return all_of( abs(_src0.self() - _src1.self()) < Tol);
 }
 template<class Derived0, size_t DIMS0, class Derived1, size_t DIMS1,
